@@ -12,7 +12,7 @@ import (
 
 // C17 - pool capacity: at most max in flight, waiters proceed, instances are never lost.
 type C17Op struct {
-	Kind   string `json:"kind"` // start | release
+	Kind   string `json:"kind"` // start | release | clear (ClearPoolRules) | restore (UpdatePooledRules with the same rules)
 	Fault  int64  `json:"fault,omitempty"`
 	Method int    `json:"method,omitempty"`
 	K      int    `json:"k,omitempty"`
@@ -82,6 +82,10 @@ func init() {
 			n := uni(t, "nops", 3, 24)
 			out := 0
 			for i := 0; i < n; i++ {
+				if pct(t, fmt.Sprintf("mgmt%d", i), 7) {
+					c.Ops = append(c.Ops, C17Op{Kind: []string{"clear", "restore"}[uni(t, fmt.Sprintf("mgmtkind%d", i), 0, 1)]})
+					continue
+				}
 				if out > 0 && (out >= int(c.PoolMax)+4 || pct(t, fmt.Sprintf("rel%d", i), 40)) {
 					c.Ops = append(c.Ops, C17Op{Kind: "release", K: uni(t, fmt.Sprintf("k%d", i), 0, out-1)})
 					out--
@@ -110,7 +114,29 @@ func init() {
 			methods := gx.MethodNames(true)
 			nextID := int64(100)
 			overCap, faultDone := false, false
+			cleared := false
+			epoch := 0
+			startEpoch := map[int64]int{}
+			startCleared := map[int64]bool{}
 			checkReq := func(r *poolReq, step int) bool {
+				if r.res.Panic != "" {
+					x.Violation("request-panic", "step %d: request %d (%s, fault kind %d) panicked: %s", step, r.id, r.call.Method, r.kind, truncate(r.res.Panic, 200))
+					return false
+				}
+				if startEpoch[r.id] != epoch || startCleared[r.id] {
+					// the request overlapped a clear / restore (or started on a cleared pool): it may
+					// have run the rules, run nothing (empty map, nil error) or failed with "no rule";
+					// only its own id may ever appear
+					x.Class("request-overlapping-clear-or-restore")
+					if v, ok := r.res.Map["main"]; ok && fmt.Sprint(v) != fmt.Sprint(r.id) {
+						x.Violation("foreign-id", "step %d: request %d got %v from its rule", step, r.id, v)
+						return false
+					}
+					if r.kind != 0 {
+						faultDone = true
+					}
+					return true
+				}
 				if r.res.Panic != "" {
 					x.Violation("request-panic", "step %d: request %d (%s, fault kind %d) panicked: %s", step, r.id, r.call.Method, r.kind, truncate(r.res.Panic, 200))
 					return false
@@ -135,8 +161,22 @@ func init() {
 			}
 			for step, op := range c.Ops {
 				switch op.Kind {
+				case "clear":
+					h.pool.ClearPoolRules()
+					cleared = true
+					epoch++
+					x.Class("clear-with-requests-outstanding")
+				case "restore":
+					if err := h.pool.UpdatePooledRules(c17Rules); err != nil {
+						x.Violation("restore-failed", "UpdatePooledRules after clear failed: %v", err)
+						return
+					}
+					cleared = false
+					epoch++
 				case "start":
 					nextID++
+					startEpoch[nextID] = epoch
+					startCleared[nextID] = cleared
 					call := fullCall(methods[op.Method%len(methods)], []string{"main", "aux"}, step)
 					h.start(nextID, op.Fault, []string{"who"}, call)
 					x.Class("method:" + call.Method)
@@ -162,6 +202,12 @@ func init() {
 				}
 				h.settle(x, fmt.Sprintf("step %d (%s)", step, op.Kind))
 				for _, r := range h.takeReaped() {
+					if startEpoch[r.id] != epoch || startCleared[r.id] {
+						if !checkReq(r, step) {
+							return
+						}
+						continue
+					}
 					x.Violation("request-skipped-its-rule", "step %d: request %d (%s) finished without running its rule", step, r.id, r.call.Method)
 					return
 				}
@@ -186,9 +232,21 @@ func init() {
 				x.Violation("over-capacity", "%d requests were inside rules simultaneously on a pool of max %d", h.gates.MaxInGate(), h.max)
 				return
 			}
+			for _, r := range h.takeReaped() {
+				if !checkReq(r, len(c.Ops)) {
+					return
+				}
+			}
 			// final probe: the pool can still serve max simultaneous requests
+			if err := h.pool.UpdatePooledRules(c17Rules); err != nil {
+				x.Violation("restore-failed", "UpdatePooledRules failed: %v", err)
+				return
+			}
+			cleared = false
+			epoch++
 			for i := 0; i < h.max; i++ {
 				nextID++
+				startEpoch[nextID] = epoch
 				h.start(nextID, 0, []string{"who"}, fullCall("Execute", []string{"main", "aux"}, 0))
 			}
 			h.settle(x, "final probe-all")
